@@ -134,6 +134,12 @@ fn read_token(s: &str) -> Option<(&str, &str)> {
 
 pub const ALPHABET: [char; 10] = ['a', 'B', ' ', '-', 'é', '語', '😀', '\u{301}', '\r', '\n'];
 
+/// Characters for the sampled stream of longer strings: the small alphabet plus case-mapping
+/// expansions, other whitespace, ZWJ / regional-indicator / Hangul sequences and a quote
+pub const WIDE: [char; 26] = [
+    'a', 'B', ' ', '-', 'é', '語', '😀', '\u{301}', '\r', '\n', 'ß', 'İ', 'ǆ', '\t', '\u{a0}', '\u{2028}', '\u{200d}', '👩', '🇯', '🇵', 'ᄀ', 'ᅡ', '\'', '{', '\\', '0',
+];
+
 /// Hand-written extended grapheme segmentation, valid for the alphabet above (plus other
 /// characters without special break properties): CR LF is one cluster, CR / LF stand alone,
 /// U+0301 extends whatever non-control character precedes it.
@@ -326,7 +332,7 @@ fn patterns(s: &str) -> Vec<String> {
     ps
 }
 
-fn build_ops(s: &str, rep: usize) -> Ops {
+fn build_ops(s: &str, rep: usize, wide: bool) -> Ops {
     let mut o = Ops { script: String::from(PRELUDE), expected: vec![] };
     o.script.push_str(&rep_setup(s, rep));
     let n = s.len() as i64;
@@ -355,7 +361,8 @@ fn build_ops(s: &str, rep: usize) -> Ops {
         }
     }
     o.op("s[..]", Exp::Val(vs(s)));
-    let gs = graphemes(s);
+    // strings outside the small alphabet are segmented by the library
+    let gs: Vec<(usize, &str)> = if wide { s.grapheme_indices(true).collect() } else { graphemes(s) };
     let gtuple = vt_strs(gs.iter().map(|g| g.1));
     o.op("s.chars().to_tuple()", Exp::Val(gtuple.clone()));
     o.op("s.to_tuple()", Exp::Val(gtuple.clone()));
@@ -461,11 +468,14 @@ fn build_ops(s: &str, rep: usize) -> Ops {
 
 /// All mismatches of one (string, representation) batch, as (signature, detail)
 fn eval_string(s: &str, rep: usize) -> (usize, Vec<Fail>) {
-    // self-check of the hand-written segmentation
-    let lib: Vec<&str> = s.graphemes(true).collect();
-    let mine: Vec<&str> = graphemes(s).iter().map(|g| g.1).collect();
-    assert_eq!(lib, mine, "harness: grapheme model disagrees with unicode-segmentation for {s:?}");
-    let ops = build_ops(s, rep);
+    let wide = s.chars().any(|c| !ALPHABET.contains(&c));
+    if !wide {
+        // self-check of the hand-written segmentation
+        let lib: Vec<&str> = s.graphemes(true).collect();
+        let mine: Vec<&str> = graphemes(s).iter().map(|g| g.1).collect();
+        assert_eq!(lib, mine, "harness: grapheme model disagrees with unicode-segmentation for {s:?}");
+    }
+    let ops = build_ops(s, rep, wide);
     let out = kx::run(&ops.script, &RunOpts::default());
     let mut fails: Vec<Fail> = vec![];
     let head = format!("string {s:?} ({}) representation {rep}\nsetup:\n{}", s.escape_unicode(), rep_setup(s, rep));
@@ -506,7 +516,8 @@ fn eval_string(s: &str, rep: usize) -> (usize, Vec<Fail>) {
 }
 
 fn string_of(ix: &[usize]) -> String {
-    ix.iter().map(|i| ALPHABET[*i]).collect()
+    // indices below 100 address the small alphabet, 100.. the wide one
+    ix.iter().map(|i| if *i >= 100 { WIDE[(*i - 100) % WIDE.len()] } else { ALPHABET[*i % ALPHABET.len()] }).collect()
 }
 
 fn nontrivial_string(s: &str) -> bool {
@@ -1252,6 +1263,22 @@ fn run_shard(ctx: &mut Ctx) {
         ctx.st.exhaustive_spaces.insert(format!("strings of <= {max_len} characters over the 10-symbol alphabet x representations (string batches)"), total);
         let case = json!({"kind": "split-empty"});
         ctx.run_case(&case, eval_split_empty);
+    }
+    // (a') sampled longer strings over the wide alphabet
+    {
+        use proptest::prelude::*;
+        use proptest::strategy::ValueTree;
+        let n = ctx.tier.pick(3_000u64, 150_000u64);
+        let strat = (proptest::collection::vec(0usize..WIDE.len(), 4..=9), 0usize..REPS);
+        for i in 0..n {
+            if !ctx.mine(i) || ctx.too_many_failures() {
+                continue;
+            }
+            let mut runner = seeded_runner(ctx.sub_seed("wide", i));
+            let (cs, rep) = strat.new_tree(&mut runner).unwrap().current();
+            let ix: Vec<usize> = cs.into_iter().map(|c| c + 100).collect();
+            run_string_batch(ctx, &ix, rep);
+        }
     }
     // (b) format grid
     let specs = all_specs();
